@@ -90,12 +90,16 @@ def plan(ctx):
     units = []
     budget = 250 if ctx.quick else 2400
     for notation in ('polish', 'standard'):
-        N = (4 if notation == 'polish' else 3) if ctx.quick else (5 if notation == 'polish' else 4)
+        N = (5 if notation == 'polish' else 4) if ctx.quick else (6 if notation == 'polish' else 5)
         alpha = parsex.ALPHABETS[(notation, 'reduced')]
         for store in STORES:
             for n in range(0, N + 1):
-                if n >= 3:
-                    # partition over worker processes by the first character
+                if n >= 5:
+                    # partition over worker processes by the first two characters
+                    for ch in alpha:
+                        for ch2 in alpha:
+                            units.append((notation, n, 'reduced', store, (ch, ch2), budget))
+                elif n >= 3:
                     for ch in alpha:
                         units.append((notation, n, 'reduced', store, (ch,), budget))
                 else:
@@ -103,7 +107,8 @@ def plan(ctx):
         if not ctx.quick:
             fa = parsex.ALPHABETS[(notation, 'full')]
             for ch in fa:
-                units.append((notation, 3, 'full', 'empty', (ch,), budget))
+                for ch2 in fa:
+                    units.append((notation, 4, 'full', 'empty', (ch, ch2), budget))
     return units
 
 
@@ -144,9 +149,9 @@ def run(ctx):
     rep.coverage = dict(
         states=paths, transitions=trans, traces_validated_against_impl=validated, samples=samples,
         accepted_paths=accepted, rejected_paths=rejected,
-        bounds=dict(polish_length=4 if ctx.quick else 5, standard_length=3 if ctx.quick else 4,
+        bounds=dict(polish_length=5 if ctx.quick else 6, standard_length=4 if ctx.quick else 5,
                     alphabet={k[0]: ''.join(v) for k, v in parsex.ALPHABETS.items() if k[1] == 'reduced'},
-                    thorough_full_alphabet='length 3' if not ctx.quick else None,
+                    thorough_full_alphabet='length 4' if not ctx.quick else None,
                     declarations=list(STORES)),
         functions_executed=['DefaultParser.__call__/_read*', 'PolishParser._read_operated',
                             'StandardParser._read_operated/_read_infix_predicated/_read_from_paren_open',
